@@ -42,13 +42,15 @@ def domain_tree():
     return gen_core.domain_tree([("noop", [], L(), L(S("and"), L(S("r"))))])
 
 
-def gen_problem(rng, cid):
+def gen_problem(rng, cid, repeats=False):
     objs = list(gen_core.OBJS) + [o for o in EXTRA_OBJS if rng.random() < 0.6]
     rng.shuffle(objs)
     atoms = gen_core.ground_atoms(objs)
     fls = gen_core.ground_fluents(objs)
     facts = [a for a in atoms if rng.random() < 0.25]
     fluents = [[f, a] for f, a in fls if rng.random() < 0.4]
+    if repeats:   # fluents whose argument list repeats an object (C09 names them explicitly)
+        fluents += [["h", [o, o]] for o, _ in objs if rng.random() < 0.3]
     glits = [a for a in atoms if rng.random() < 0.08]
     gcmps = []
     for _ in range(rng.choice([0, 0, 1, 2])):
